@@ -111,6 +111,40 @@ def c27(idx: Index, rep: Report, tier: str) -> None:
 
 
 # ------------------------------------------------------------------------------------ C28
+UNGROUND_CALLS = {"substitute", "get"}  # parameter substitution keeps nested fluents; FreeVarsExtractor.get returns them
+
+
+def state_lookups_ground(rep: Report, rule: str, funcs: List[FuncInfo]) -> int:
+    """`state.get_value(e)` answers for *ground* fluent expressions only (anything else falls through to the default
+    value). An expression that comes from a parameter substitution or from the free-variables extractor may still have
+    a fluent among its arguments: the lookup must be guarded by a groundness test on `e.args`, or `e` must have been
+    rebuilt from evaluated arguments."""
+    n = 0
+    for f in funcs:
+        calls = [c for c in walk_no_nested(f.node) if isinstance(c, ast.Call) and call_name(c) == "get_value" and len(c.args) == 1 and isinstance(c.func, ast.Attribute)]
+        if not calls:
+            continue
+        cfg = cfg_of(f)
+        du = DefUse(cfg)
+        for c in calls:
+            nds = cfg.node_containing(c)
+            if not nds:
+                continue
+            nd = nds[0]
+            src = du.sources(c.args[0], nd)
+            risky = sorted({ch[-1] for ch in src if ch and ch[-1].endswith("()") and ch[-1][:-2] in UNGROUND_CALLS and not (ch[-1] == "get()" and len(ch) >= 2 and ch[-2] in ("_values", "fluents_defaults", "dict"))})
+            rebuilt = any(isinstance(x, ast.Call) and call_name(x) == "evaluate" for a in ast.walk(f.node) if isinstance(a, ast.Assign) and any(norm(t) == norm(c.args[0]) for t in a.targets) for x in ast.walk(a.value))
+            if not risky:
+                continue
+            n += 1
+            guards = [norm(t.ast) for t, o in guards_dominating(cfg, nd)]
+            # a generator / comprehension filter counts too
+            guarded = any("is_constant" in g and ".args" in g for g in guards)
+            ok = guarded or rebuilt
+            rep.check(ok, rule, "a state is asked for the value of a ground fluent expression", f.loc(c), construct=f"{norm(c)[:60]} with the argument from {risky}: " + ("groundness tested" if guarded else "rebuilt from evaluated arguments" if rebuilt else "not known to be ground"), detail="" if ok else "the expression can still have a fluent among its arguments (f(g(x))): State.get_value finds no entry for it and answers with the default of f instead of the value of f(<value of g(x)>)", function=f.qualname)
+    return n
+
+
 # ------------------------------------------------------------------------------------ sibling branches / fixpoints
 _TWIN_SWAPS = [("Minus", "Plus"), ("decrease", "increase"), ("Decrease", "Increase"), ("DECREASE", "INCREASE")]
 
@@ -253,6 +287,11 @@ def c28(idx: Index, rep: Report, tier: str) -> None:
     nt = increase_decrease_twins(rep, rule_t, tts)
     rep.count("increase_decrease_pairs", nt)
     rep.require_min(rule_t, "increase_decrease_pairs", 3)
+
+    rule_g = "C28.6 def-use state-lookups-take-ground-expressions"
+    ng = state_lookups_ground(rep, rule_g, tts)
+    rep.count("state_lookups", ng)
+    rep.require_min(rule_g, "state_lookups", 2)
 
 
 # ------------------------------------------------------------------------------------ C20
@@ -1181,6 +1220,11 @@ def c35(idx: Index, rep: Report, tier: str) -> None:
                 rep.check(dep, rule, "the written value is the drawn one", g.loc(c), construct=norm(c)[:90], detail="" if dep else "a constant is written instead of the value of the model", function=g.qualname)
     rep.count("model_loops", n)
     rep.require_min(rule, "model_loops", 1)
+
+    rule_g = "C35.5 def-use state-lookups-take-ground-expressions"
+    envf = [fi for fi in idx.all_funcs() if fi.module.name == "unified_planning.model.contingent.execution_environment"]
+    ng = state_lookups_ground(rep, rule_g, envf)
+    rep.count("state_lookups", ng)
 
 
 # ------------------------------------------------------------------------------------ C08
